@@ -168,6 +168,31 @@ func nrules(p *load.Program, f *fsm, s *oblig.Set) {
 			return nil, false
 		}
 		in.Hooks.BinOp = nil
+		// a loop that tests its condition itself (no helper to hook): one trip is
+		// from the first arrival at the loop header to the second
+		if !callsHelper(next, "finished") {
+			headerVisits := 0
+			in.Hooks.Instr = func(in *absint.Interp, fr *absint.Frame, ins ssa.Instruction) {
+				if fr.Fn != next {
+					return
+				}
+				b := ins.Block()
+				if b == nil || len(b.Instrs) == 0 || b.Instrs[0] != ins {
+					return
+				}
+				switch {
+				case strings.HasPrefix(b.Comment, "for.loop"):
+					headerVisits++
+					if headerVisits == 2 {
+						oc.end = "iterate"
+						oc.lex, _ = cell.V.(*absint.Struct)
+						in.Undecided("iteration-end", ins)
+					}
+				case strings.HasPrefix(b.Comment, "for.body"):
+					oc.entered = true
+				}
+			}
+		}
 		res, end := in.Run(next, []absint.Val{recv})
 		if oc.end == "" {
 			if end != nil {
@@ -550,4 +575,18 @@ func isExtraLexField(n string) bool {
 		return false
 	}
 	return true
+}
+
+// callsHelper: does fn call a function of its own package with this name?
+func callsHelper(fn *ssa.Function, name string) bool {
+	for _, b := range fn.Blocks {
+		for _, ins := range b.Instrs {
+			if ci, ok := ins.(ssa.CallInstruction); ok {
+				if c := ci.Common().StaticCallee(); c != nil && c.Pkg == fn.Pkg && c.Name() == name {
+					return true
+				}
+			}
+		}
+	}
+	return false
 }
